@@ -208,16 +208,15 @@ Inductive bres :=
         5 successors differ, 6 step cost differs, 7 final metric differs, 8 metric kind differs,
         9 certificate incomplete (search defect, not a disagreement), 10 action signatures differ *)
 
-Definition bisim_check (P Q : problem) (MP MQ : qmetric) (sigsP sigsQ : list (N * list N)) (l0P l0Q : fstate)
-           (n cap : nat) : bres :=
+(* the verdict on a proposed certificate [vb] = (ranked states, bound); sound for ANY [vb] *)
+Definition bisim_check_with (vb : list node * nat) (P Q : problem) (MP MQ : qmetric) (sigsP sigsQ : list (N * list N))
+           (l0P l0Q : fstate) : bres :=
   if negb (objs_agree P Q) then BFail 1 [] None
   else if negb (sigs_agree sigsP sigsQ) then BFail 10 [] None
   else if negb (metric_kind_eqb MP MQ) then BFail 8 [] None
   else if negb (state_list_eqb l0P l0Q) then BFail 2 [] None
   else
     let insts := all_insts P sigsP in
-    let root := {| n_rank := 0; n_trace := []; n_st := l0P |} in
-    let vb := explore P insts cap n 0 [root] [root] in
     if cert_ok P Q (qm_m MP) (qm_m MQ) insts (fst vb) (snd vb) l0P
     then (if cert_closed (fst vb) (snd vb) then BClosed else BBounded (snd vb))
     else match first_bad P Q (qm_m MP) (qm_m MQ) insts (fst vb) (snd vb) with
@@ -225,14 +224,18 @@ Definition bisim_check (P Q : problem) (MP MQ : qmetric) (sigsP sigsQ : list (N 
          | None => BFail 9 [] None
          end.
 
+(* the search: breadth first from the initial state of P, at most [n] layers, stops expanding beyond [cap] states *)
+Definition bisim_explore (P : problem) (sigsP : list (N * list N)) (l0P : fstate) (n cap : nat) : list node * nat :=
+  let root := {| n_rank := 0; n_trace := []; n_st := l0P |} in
+  explore P (all_insts P sigsP) cap n 0 [root] [root].
+
+Definition bisim_check (P Q : problem) (MP MQ : qmetric) (sigsP sigsQ : list (N * list N)) (l0P l0Q : fstate)
+           (n cap : nat) : bres :=
+  bisim_check_with (bisim_explore P sigsP l0P n cap) P Q MP MQ sigsP sigsQ l0P l0Q.
+
 (* a summary code for the harness: 0 closed, 1 bounded, otherwise 100 + why *)
 Definition bres_code (r : bres) : N :=
   match r with BClosed => 0 | BBounded _ => 1 | BFail w _ _ => 100 + w end%N.
-
-(* size of the explored graph: (states, bound) -- evidence only *)
-Definition explored_size (P : problem) (sigsP : list (N * list N)) (l0P : fstate) (n cap : nat) : nat * nat :=
-  let root := {| n_rank := 0; n_trace := []; n_st := l0P |} in
-  let vb := explore P (all_insts P sigsP) cap n 0 [root] [root] in (length (fst vb), snd vb).
 
 (* ------------------------------------------------------------------ plans *)
 Fixpoint plan_eqb (a b : list inst) : bool :=
